@@ -537,11 +537,104 @@ pub fn eval_fold(c: &FoldCase) -> CaseOut {
     out
 }
 
+// ---------------------------------------------------------------------------------------------------------
+// names that equal the 8.3 reading of the volume label (a record in the root directory that is not a file)
+
+#[derive(Clone, Debug, Serialize, Deserialize)]
+pub struct LabelCase {
+    pub label: String,
+    /// the name used: the label's 8.3 reading, 0 = as is, 1 = lower case, 2 = first letter upper, rest lower
+    pub spelling: u8,
+    /// 0 = open_file, 1 = open_dir, 2 = remove, 3 = create_file, 4 = create_dir, 5 = rename of another file to the name
+    pub mode: u8,
+}
+
+pub fn eval_label(c: &LabelCase) -> CaseOut {
+    let mut out = CaseOut::default();
+    out.hash = run::hash_str(&format!("label|{}|{}|{}", c.label, c.spelling, c.mode));
+    out.nontrivial = true;
+    let mut lab = [b' '; 11];
+    for (i, b) in c.label.bytes().take(11).enumerate() {
+        lab[i] = b;
+    }
+    let base = String::from_utf8_lossy(&lab[..8]).trim_end().to_string();
+    let ext = String::from_utf8_lossy(&lab[8..]).trim_end().to_string();
+    let reading = if ext.is_empty() { base } else { format!("{}.{}", base, ext) };
+    let name = match c.spelling % 3 {
+        0 => reading.clone(),
+        1 => reading.to_lowercase(),
+        _ => {
+            let mut cs = reading.to_lowercase().chars().collect::<Vec<_>>();
+            if let Some(f) = cs.first_mut() {
+                *f = f.to_ascii_uppercase();
+            }
+            cs.into_iter().collect()
+        }
+    };
+    let dev = MemDev::dense(vec![0u8; 400 * 512]);
+    let mut dh = dev.handle();
+    if let Err(e) = fatfs::format_volume(&mut dh, fatfs::FormatVolumeOptions::new().volume_label(lab)) {
+        out.violation = Some(format!("HARNESS: format: {:?}", e));
+        return out;
+    }
+    let mode = c.mode % 6;
+    let devh = dev.handle();
+    let nm = name.clone();
+    let r = guard(move || -> Result<(String, Vec<String>, Option<[u8; 11]>), String> {
+        let clock = Clock::new(500_000_000_000);
+        let s = Session::mount(&devh, &clock, &MountOpts::default()).map_err(|e| format!("mount: {:?}", e))?;
+        let root = s.root();
+        root.create_file("other.txt").map(|_| ()).map_err(|e| format!("create other.txt: {:?}", e))?;
+        let res = match mode {
+            0 => format!("{:?}", root.open_file(&nm).map(|_| ()).map_err(|e| ek(&e))),
+            1 => format!("{:?}", root.open_dir(&nm).map(|_| ()).map_err(|e| ek(&e))),
+            2 => format!("{:?}", root.remove(&nm).map_err(|e| ek(&e))),
+            3 => format!("{:?}", root.create_file(&nm).map(|_| ()).map_err(|e| ek(&e))),
+            4 => format!("{:?}", root.create_dir(&nm).map(|_| ()).map_err(|e| ek(&e))),
+            _ => format!("{:?}", root.rename("other.txt", &root, &nm).map_err(|e| ek(&e))),
+        };
+        let mut listing = Vec::new();
+        for e in root.iter() {
+            listing.push(e.map_err(|e| format!("listing: {:?}", e))?.file_name());
+        }
+        listing.sort();
+        let label = s.fs().read_volume_label_from_root_dir_as_bytes().map_err(|e| format!("label: {:?}", e))?;
+        drop(root);
+        s.unmount().map_err(|e| format!("unmount: {:?}", e))?;
+        Ok((res, listing, label))
+    });
+    let what = ["open_file", "open_dir", "remove", "create_file", "create_dir", "rename(\"other.txt\", root, ..)"][mode as usize];
+    match r {
+        Caught::Panic(p) => out.violation = Some(format!("{}({:?}) on a volume labelled {:?} panicked: {}", what, name, c.label, p)),
+        Caught::Ok(Err(e)) => out.violation = Some(format!("{}({:?}) on a volume labelled {:?}: {}", what, name, c.label, e)),
+        Caught::Ok(Ok((res, listing, label))) => {
+            let (want_res, mut want_list) = match mode {
+                0 | 1 | 2 => ("Err(NotFound)", vec!["other.txt".to_string()]),
+                3 | 4 => ("Ok(())", vec!["other.txt".to_string(), name.clone()]),
+                _ => ("Ok(())", vec![name.clone()]),
+            };
+            want_list.sort();
+            if res != want_res {
+                out.violation = Some(format!("{}({:?}) on a volume whose label reads {:?} returned {}, expected {}: the label record is not a file or directory", what, name, reading, res, want_res));
+            } else if listing != want_list {
+                out.violation = Some(format!("after {}({:?}) on a volume whose label reads {:?} the root lists {:?}, expected {:?}", what, name, reading, listing, want_list));
+            } else if label != Some(lab) {
+                out.violation = Some(format!("after {}({:?}) the label record reads {:?}, it was {:?}", what, name, label, lab));
+            }
+        }
+    }
+    out
+}
+
 fn fail(c: &NameCase, m: String) -> Failure {
     Failure { message: m, case: serde_json::to_value(c).unwrap(), kind: "name".into() }
 }
 
 pub fn replay(v: &serde_json::Value) -> Result<Option<String>, String> {
+    if v["kind"].as_str() == Some("label") {
+        let c: LabelCase = serde_json::from_value(v["case"].clone()).map_err(|e| format!("bad case: {}", e))?;
+        return Ok(eval_label(&c).violation);
+    }
     if v["kind"].as_str() == Some("fold") {
         let c: FoldCase = serde_json::from_value(v["case"].clone()).map_err(|e| format!("bad case: {}", e))?;
         return Ok(eval_fold(&c).violation);
@@ -569,7 +662,7 @@ fn name_with(c: char, pos: u8) -> String {
 }
 
 pub fn run(tier: Tier, seed: u64) -> i32 {
-    let rule = "names through create_file, create_dir and rename on a fresh tiny volume each: every ASCII character alone and embedded; every BMP scalar (quick: one call kind per (character, position), thorough: all three) and 2000 astral ones as first / middle / last character; byte lengths 0..300 built from 1-, 2- and 3-byte characters; random strings; oracle = independent acceptance predicate (1..=255 UTF-8 bytes, documented character set) => rejected names fail with a matching error kind and leave the image byte-identical, accepted names are listed unit for unit, found by name, case variants and alias (read by refdec) and not found by near-misses (folding = std char::to_uppercase); plus every rejected name of a fixed list (empty, 256/300 bytes in 1-, 2-, 3-byte characters, every unacceptable ASCII character alone / embedded / in a long name, U+FFFF) through nine call shapes that create an entry (create in a subdirectory, rename, file and directory moves in every direction): matching error kind and a byte-identical image; plus names of 20 lengths created (file, directory, rename) into holes left by names of 12 lengths between two long-named neighbours: all three names listed character for character, live and after a remount; plus names of more than 255 bytes that case-fold onto an existing file or directory (128..255 long s / dotless i against as many s / i): rejected with the length error, image unchanged; non-trivial = accepted non-ASCII or >= 14 units, or rejected; distinct by (name, call kind)";
+    let rule = "names through create_file, create_dir and rename on a fresh tiny volume each: every ASCII character alone and embedded; every BMP scalar (quick: one call kind per (character, position), thorough: all three) and 2000 astral ones as first / middle / last character; byte lengths 0..300 built from 1-, 2- and 3-byte characters; random strings; oracle = independent acceptance predicate (1..=255 UTF-8 bytes, documented character set) => rejected names fail with a matching error kind and leave the image byte-identical, accepted names are listed unit for unit, found by name, case variants and alias (read by refdec) and not found by near-misses (folding = std char::to_uppercase); plus every rejected name of a fixed list (empty, 256/300 bytes in 1-, 2-, 3-byte characters, every unacceptable ASCII character alone / embedded / in a long name, U+FFFF) through nine call shapes that create an entry (create in a subdirectory, rename, file and directory moves in every direction): matching error kind and a byte-identical image; plus names of 20 lengths created (file, directory, rename) into holes left by names of 12 lengths between two long-named neighbours: all three names listed character for character, live and after a remount; plus names of more than 255 bytes that case-fold onto an existing file or directory (128..255 long s / dotless i against as many s / i): rejected with the length error, image unchanged; plus names equal (in three spellings) to the 8.3 reading of the volume label record in the root directory: open / remove do not find it, create / rename make a real entry, the label stays; non-trivial = accepted non-ASCII or >= 14 units, or rejected; distinct by (name, call kind)";
     let mut rep = Report::new("C15", tier, seed, "exploration", rule);
     rep.assume("'.' and '..' and names containing '/' are outside the domain (reserved entries / path separator)");
     rep.assume("U+FFFF is not part of the accepted set: it is the long-name padding value and cannot be stored");
@@ -750,6 +843,19 @@ pub fn run(tier: Tier, seed: u64) -> i32 {
             let out = eval_fold(&c);
             blk.record(&out, || serde_json::to_value(&c).unwrap());
             out.violation.map(|m| Failure { message: m, case: serde_json::to_value(&c).unwrap(), kind: "fold".into() })
+        });
+        b.exhaustive = true;
+        rep.add(b);
+    }
+    // names equal to the 8.3 reading of the volume label
+    if !rep.failed() {
+        let labels = ["BACKUP", "MY LABEL", "DATA    TXT", "A", "NO NAME", "LABEL123ABC"];
+        let mut b = run::run_indexed("names_equal_to_the_volume_label", (labels.len() * 3 * 6) as u64, |i, blk| {
+            let i = i as usize;
+            let c = LabelCase { label: labels[i / 18].to_string(), spelling: ((i / 6) % 3) as u8, mode: (i % 6) as u8 };
+            let out = eval_label(&c);
+            blk.record(&out, || serde_json::to_value(&c).unwrap());
+            out.violation.map(|m| Failure { message: m, case: serde_json::to_value(&c).unwrap(), kind: "label".into() })
         });
         b.exhaustive = true;
         rep.add(b);
